@@ -1,0 +1,12 @@
+//go:build verif
+
+package rdb
+
+// VerifSetMaxBinEntryBuffer replaces the size above which a hash table value is
+// split into several entries (16 MiB in production) and returns the old value.
+// Verification hook: compiled only with the build tag "verif".
+func VerifSetMaxBinEntryBuffer(n int) (old int) {
+	old = maxBinEntryBuffer
+	maxBinEntryBuffer = n
+	return old
+}
